@@ -18,7 +18,7 @@ theorem gateP {cls : GClass} {cs : List Nat} {t : Nat} {u : Unit} {s s' : CState
     (hcs : ∀ c ∈ cs, ¬ Avail s c) (hp : PrivD Kn s0 s t) :
     GI Kn ρ σ0 s0 s' ∧ Fr Kn σ0 s0 s s' (· = t) NoN (· ∈ cs) ∧ PrivD Kn s0 s' t ∧ TgtL s0 s' t ∧
       Appended cls (cs ++ [t]) s s' ∧ t ∉ cs := by
-  obtain ⟨gi', ha, g, hgw, hL⟩ := gate_gi h gi hc hnop hcs hp.av0 hp.nav (Or.inl hp.unread) hp.nn
+  obtain ⟨gi', ha, g, hgw, hL⟩ := gate_gi h gi hc hnop hcs hp.av0 hp.nav hp.unread hp.nn
   have gi'' : GI Kn ρ σ0 s0 s' := gi'.close (by rw [ha.expq]; exact hp.nc) (fun _ => TgtL.of_gate hgw hL)
   have fr := gate_fr (Kn := Kn) (σ0 := σ0) ha hc hgw hL
   have hnd : (cs ++ [t]).Nodup := by
@@ -140,7 +140,7 @@ theorem exprG_not {x : BExp} (ih : ExprG Kn ρ σ0 s0 x) : ExprG Kn ρ σ0 s0 (.
         rw [hqc4] at hq'
         exact (gi2.names n a hk hq').2.1 hanc
       obtain ⟨gi5, ha5, g, hgw, hL⟩ := gate_gi (cs := []) (t := a) hx' gi4 rfl rfl (fun _ hc => by cases hc)
-        (gi.avail a hav0) hnav4 (Or.inl (Unread.congr (by rw [hqc4]) hur)) hnn
+        (gi.avail a hav0) hnav4 (Unread.congr (by rw [hqc4]) hur) hnn
       have fr5 := gate_fr (Kn := Kn) (σ0 := σ0) ha5 rfl hgw hL
       have hnav5 : ¬ Avail s5 a := fun h' => hnav4 (fr5.avail a h')
       have hval5 : cur σ0 s5 a = (BExp.not x).eval ρ := by
